@@ -1706,6 +1706,14 @@ class HTTP11ClientProtocol(Protocol):
         try:
             self._parser.dataReceived(bytes)
         except BaseException:
+            if self._state == "TRANSMITTING":
+                # The request is still being written, so its Deferred is not
+                # yet chained to the parser's (see cbRequestWritten).  Chain it
+                # now so that the outcome reaches it, and tell the request
+                # that it does not need to continue transmitting itself.
+                self._state = "WAITING"
+                self._responseDeferred.chainDeferred(self._finishedRequest)
+                self._currentRequest.stopWriting()
             self._giveUp(Failure())
 
     def connectionLost(self, reason):
